@@ -135,7 +135,10 @@ func directoryTables(addr ssa.Value) []string {
 	return out
 }
 
+var badIndexTest map[*ssa.If]bool // index tests already reported (the scan runs once per modify arm)
+
 func checkC20(c *Ctx) {
+	badIndexTest = nil
 	R := c.R
 	success, _ := c.P.ConstInt(G, "ResultSuccess")
 	isSetCode := func(in ssa.Instruction, code int64) bool {
@@ -314,6 +317,9 @@ func checkC20(c *Ctx) {
 			needVals := op != 1
 			// the tests `found != nil` of the handler (one SSA value tested in several places counts as one condition)
 			foundKeys := map[string]bool{} // CondKey -> value of the key when the attribute exists
+			if badIndexTest == nil {
+				badIndexTest = map[*ssa.If]bool{}
+			}
 			an.Instrs(h, func(in ssa.Instruction) {
 				iff, ok := in.(*ssa.If)
 				if !ok {
@@ -364,6 +370,10 @@ func checkC20(c *Ctx) {
 							k, kneg := an.CondKey(cv)
 							condWhenFound := trueMeansFound != cneg
 							foundKeys[k] = condWhenFound != kneg
+						} else if !badIndexTest[iff] {
+							// a comparison of the lookup's index with a constant that is not the found / not-found distinction
+							badIndexTest[iff] = true
+							R.Fail("C20-arms", fname(h)+": found test on the lookup index", c.pos(iff), sprintf("the handler tests the index a lookup returned (-1 when nothing was found) with `%s %d`, which is not the found / not-found distinction: an attribute found at index 0 (or a missing one) takes the wrong arm", op.String(), kv))
 						}
 					}
 				}
@@ -694,24 +704,50 @@ func checkC20(c *Ctx) {
 		}
 		c.checkDefaultCode(h, "NewSearchDoneResponse", "ResultNoSuchObject", "C20-codes")
 		n := 0
+		// (the entry may be built by a helper that is given the directory entry: `newSearchEntry(r, e)`)
+		type buildSite struct {
+			fn      *ssa.Function             // where NewSearchResponseEntry is called
+			ci      ssa.CallInstruction       // that call
+			fromDir func(base ssa.Value) bool // the entry whose DN is used is one of the directory's
+		}
+		var sites []buildSite
 		for _, ci := range an.Calls(h) {
-			if !an.CalleeIs(ci.Common(), G, "(*Request).NewSearchResponseEntry") {
+			if an.CalleeIs(ci.Common(), G, "(*Request).NewSearchResponseEntry") {
+				sites = append(sites, buildSite{h, ci, func(base ssa.Value) bool { return c.entryFromDirectory(base, h, 0) }})
 				continue
 			}
+			g := an.StaticCallee(ci.Common())
+			if g == nil || !an.InModule(g) || len(g.Blocks) == 0 || !isCall(ci) {
+				continue
+			}
+			for _, ic := range an.Calls(g) {
+				if !an.CalleeIs(ic.Common(), G, "(*Request).NewSearchResponseEntry") {
+					continue
+				}
+				outer := ci
+				sites = append(sites, buildSite{g, ic, func(base ssa.Value) bool {
+					for i, p := range g.Params {
+						if an.Strip(base) == ssa.Value(p) && i < len(outer.Common().Args) {
+							return c.entryFromDirectory(outer.Common().Args[i], h, 0)
+						}
+					}
+					return false
+				}})
+			}
+		}
+		for _, bs := range sites {
+			ci, h := bs.ci, bs.fn
 			n++
 			dn := ci.Common().Args[1]
 			// e.DN of an element of a list
 			base, okDN := fieldLoad(dn, G, "Entry", "DN")
 			okSrc := false
 			if okDN {
-				okSrc = c.entryFromDirectory(base, h, 0)
+				okSrc = bs.fromDir(base)
 			}
 			// attributes: AddAttribute(attr.Name, attr.Values) over e.Attributes in order
 			okAttr := false
 			call := ci.(*ssa.Call)
-			for _, r := range *call.Referrers() {
-				_ = r
-			}
 			for _, ac := range an.Calls(h) {
 				if an.CalleeIs(ac.Common(), G, "(*SearchResponseEntry).AddAttribute") && an.Strip(ac.Common().Args[0]) == ssa.Value(call) {
 					n1, v1 := an.Canon(ac.Common().Args[1]), an.Canon(ac.Common().Args[2])
